@@ -17,21 +17,21 @@ def fvec(e, NE):
     for k, w in e.decomposition_dict.items():
         if not isinstance(k, Expression) or not k.get_is_leaf():
             raise proj.Inexact("function value with a non-leaf-expression key")
-        v[k.counter] += proj.rat(w)
+        v[k.counter] += proj.rat(w, exact=False)
     return v
 
 
 def table(f, fid_of, NP, NE):
     pts = []
     for (x, g, v) in f.list_of_points:
-        pts.append(dict(x=sparse(proj.pvec(x, NP)), g=sparse(proj.pvec(g, NP)), f=sparse(fvec(v, NE))))
+        pts.append(dict(x=sparse(proj.pvec(x, NP, exact=False)), g=sparse(proj.pvec(g, NP, exact=False)), f=sparse(fvec(v, NE))))
     stat = []
     for t in f.list_of_stationary_points:
         idx = [i + 1 for i, u in enumerate(f.list_of_points) if u is t]
         stat.append(idx[0] if idx else 0)
     w = []
     for k, c in f.decomposition_dict.items():
-        r = proj.rat(c)
+        r = proj.rat(c, exact=False)
         w.append([fid_of[id(k)], r.numerator, r.denominator])
     return dict(leaf=1 if f.get_is_leaf() else 0, diff=1 if f.reuse_gradient else 0, w=w, pts=pts, stat=stat)
 
